@@ -33,7 +33,8 @@ let table_of (t : string) : (n list -> bool) =
       match String.split_on_char '=' kv with
       | [k; v] -> (str_of_hex k, v = "1")
       | _ -> failwith "table") (String.split_on_char ',' t) in
-  fun s -> (try List.assoc s entries with Not_found -> false)
+  (* every string the model can ask about is in the harness's pool; a miss is an error, not "no match" *)
+  fun s -> (try List.assoc s entries with Not_found -> failwith ("regex table has no entry for " ^ hex_of_str s))
 
 (* returns (filters, rest) *)
 let rec parse_filters (k : int) (toks : string list) =
@@ -76,6 +77,7 @@ let strip_replay toks = List.filter (fun t -> String.length t = 0 || t.[0] <> '#
 
 let () =
   iter_lines (fun l ->
+    try
     match strip_replay (split_ws l) with
     | id :: "FR" :: n :: limit :: start :: lister :: nf :: rest ->
       let n = int_of_string n in
@@ -108,4 +110,6 @@ let () =
          Printf.printf "%s OK %s\n" id
            (String.concat "," (List.map (fun (k, v) -> hex_of_str k ^ "=" ^ string_of_int (int_of_nat v)) tags)))
     | [] -> ()
-    | _ -> Printf.printf "BADLINE %s\n" l)
+    | _ -> Printf.printf "BADLINE %s\n" l
+    with Failure msg ->
+      (match split_ws l with id :: _ -> Printf.printf "%s MODEL-ERROR %s\n" id msg | [] -> ()))
